@@ -44,6 +44,7 @@ from mashumaro.core.meta.helpers import (
     is_generic,
     is_literal,
     is_named_tuple,
+    is_nullable,
     is_new_type,
     is_not_required,
     is_readonly,
@@ -384,6 +385,8 @@ def on_type_with_overridden_serialization(
         )
         instance.update_type(Any)  # type: ignore[arg-type]
 
+    # None is written as null without the serialization method being called
+    nullable = is_nullable(instance.type)
     overridden_method = instance.get_overridden_serialization_method()
     if overridden_method is pass_through:
         return None
@@ -398,7 +401,12 @@ def on_type_with_overridden_serialization(
                 instance.update_type(new_type)
         except Exception as e:
             override_with_any(e)
-        return get_schema(instance, ctx)
+        schema = get_schema(instance, ctx)
+        if nullable and not is_nullable(instance.type):
+            return JSONSchema(
+                anyOf=[schema, JSONSchema(type=JSONSchemaInstanceType.NULL)]
+            )
+        return schema
 
 
 @register
